@@ -216,7 +216,7 @@ class Model:
     def kinds_of(self, targets):
         return "".join(self.ref.kinds[t] for t in targets)
 
-    def enabled(self, a, world):
+    def enabled(self, a, world, obs=None):
         """True iff `a` is a *valid request* in the current reference state."""
         R = self.ref
         kind = a[0]
@@ -287,6 +287,11 @@ class Model:
             return ks is not None and ks != "wrongsize"
         if kind in ("env_combine",):
             e = a[1]
+            if obs is not None:
+                # validity left open by the documentation when a member lives in a product space (or is combined already)
+                locs = {obs.location(e + ".f"), obs.location(e + ".p")}
+                if not locs <= {"own"}:
+                    return False
             return R.alive(e + ".f") and R.alive(e + ".p") and not self.env_retired[e]
         if kind == "env_reorder":
             e = a[1]
@@ -294,6 +299,16 @@ class Model:
                     and self._entry_ok("env:" + e, a[2]) and 1 <= len(a[2]) <= 2)
         if kind in ("expand", "contract"):
             entry, targets = a[1], a[2]
+            if kind == "contract" and obs is not None:
+                # contract() on a subsystem whose state lives elsewhere, and Envelope.contract() on
+                # anything but a combined matrix-level envelope: validity left open by the docs
+                if entry == "state" and obs.location(targets[0]) != "own":
+                    return False
+                if entry.startswith("env:"):
+                    e = entry.split(":")[1]
+                    b = obs.block_of(e + ".f")
+                    if b is None or b.kind != "env" or b.level != "M":
+                        return False
             if entry.startswith("env:"):
                 e = entry.split(":")[1]
                 return R.alive(e + ".f") and R.alive(e + ".p") and not self.env_retired[e]
